@@ -24,7 +24,11 @@ def run(tier, seed):
         for nm, inp in (('empty_inputs', {}), ('no_inputs', None)):
             rp.append(dict(name='C07_' + nm, progs=C.fam(['P02', 'P03']), plans=save_plans((1, 2, 3)), alphabet=['save', 'restore'], k=1,
                            run_kw=dict(rk('pickle'), inputs=inp)))
-        outl = [('C07_outl_%s' % m, om.sample(om.family(4, 3), 250, seed), om.oracles(3), crash_sets(4, 1), m) for m in ('copy', 'yaml')]
+        outl = [('C07_outl_%s' % m, om.sample(om.family(4, 3), 250, seed), om.oracles(3), crash_sets(4, 1), m, 0, 'default') for m in ('copy', 'yaml')]
+        two = [(0, 1), (0, 2), (1, 2), (1, 3), (0, 1, 2)]
+        outl += [('C07_outl_mem_late', om.sample(om.family(4, 3), 200, seed + 1), om.oracles(3), crash_sets(3, 1) + two[:2], 'mem', 1, 'default'),
+                 ('C07_outl_custom_loader', om.sample(om.family(4, 3), 120, seed + 2), om.oracles(3), crash_sets(3, 1), 'pickle', 0, 'custom'),
+                 ('C07_outl_alternating_loaders', om.sample(om.family(4, 3), 150, seed + 3), om.oracles(3), two, 'copy', 0, 'alternate')]
     else:
         mc = [dict(name='C07_points', progs=C.fam(progs), plans=save_plans((1, 2, 3, 4, 5)), alphabet=alpha, k=4, invariants=INV)]
         rp = [dict(name='C07_%s' % m, progs=C.fam(progs), plans=save_plans((1, 2, 3, 4, 5)), alphabet=alpha, k=2, run_kw=rk(m))
@@ -35,15 +39,18 @@ def run(tier, seed):
             for m in ('copy', 'pickle', 'yaml'):
                 rp.append(dict(name='C07_%s_%s' % (nm, m), progs=C.fam(progs), plans=save_plans((1, 2, 3, 4)), alphabet=['save', 'restore'], k=1,
                                run_kw=dict(rk(m), inputs=inp)))
-        outl = [('C07_outl_%s' % m, om.sample(om.family(4, 3), 2000, seed), om.oracles(3), crash_sets(5, 2), m) for m in ('copy', 'pickle', 'yaml')]
+        outl = [('C07_outl_%s' % m, om.sample(om.family(4, 3), 2000, seed), om.oracles(3), crash_sets(5, 2), m, 0, 'default') for m in ('copy', 'pickle', 'yaml')]
+        outl += [('C07_outl_%s_late' % m, om.sample(om.family(4, 3), 1000, seed + 1), om.oracles(3), crash_sets(5, 2), m, 1, 'default') for m in ('mem', 'pfile')]
+        outl += [('C07_outl_custom_loader_%s' % m, om.sample(om.family(4, 3), 600, seed + 2), om.oracles(3), crash_sets(5, 2), m, 0, 'custom') for m in ('copy', 'pickle', 'yaml')]
+        outl += [('C07_outl_alternating_loaders_%s' % m, om.sample(om.family(4, 3), 600, seed + 3), om.oracles(3), crash_sets(5, 3), m, 0, 'alternate') for m in ('copy', 'yaml')]
     viol = 0
     ostates = oreplayed = 0
     osumm = []
-    for name, outlines, oracles, crashes, medium in outl:
-        r = outline_check.model_and_replay(name, outlines, oracles, crash_sets=crashes, invariants=['C08_RoundTrip'], medium=medium)
+    for name, outlines, oracles, crashes, medium, lag, loaders in outl:
+        r = outline_check.model_and_replay(name, outlines, oracles, crash_sets=crashes, invariants=['C08_RoundTrip'], medium=medium, lag=lag, loaders=loaders)
         res = r['tlc']
         ostates += res.distinct
-        osumm.append({'instance': name, 'outlines': len(outlines), 'crash_sets': len(crashes), 'medium': medium, 'behaviours': r['behaviours'],
+        osumm.append({'instance': name, 'outlines': len(outlines), 'crash_sets': len(crashes), 'medium': medium, 'lag': lag, 'loaders': loaders, 'behaviours': r['behaviours'],
                       'mismatches': len(r['mismatches'])})
         if res.violated:
             path = core_check.write_replay(PID, 'tlc', {'kind': 'tlc-counterexample', 'violated': res.violated,
@@ -58,9 +65,9 @@ def run(tier, seed):
         for key, why, got in r['mismatches'][:5]:
             oi, ri, ci = key
             path = core_check.write_replay(PID, 'outline', {'kind': 'outline-mismatch', 'outline': outlines[oi - 1], 'oracle': oracles[ri - 1],
-                                                            'crash_at': list(crashes[ci - 1]), 'medium': medium, 'why': why,
+                                                            'crash_at': list(crashes[ci - 1]), 'medium': medium, 'lag': lag, 'loaders': loaders, 'why': why,
                                                             'expected_units': r['expected'][key][0], 'expected_result': r['expected'][key][1], 'got': got})
-            print('MISMATCH (%s) outline=%s crash_at=%s: %s' % (medium, json.dumps(outlines[oi - 1]), list(crashes[ci - 1]), why))
+            print('MISMATCH (%s, lag %d, loaders %s) outline=%s crash_at=%s: %s' % (medium, lag, loaders, json.dumps(outlines[oi - 1]), list(crashes[ci - 1]), why))
             print('VIOLATION property=%s replay=%s' % (PID, path))
         viol += len(r['mismatches'])
     return core_check.run_check(
@@ -71,7 +78,8 @@ def run(tier, seed):
             'process must be in; fidelity of a medium is established only for the bundles of the enumerated points (small ints, strings, nested '
             'dicts, UUID pids, exception objects); traceback text is ignored as the property allows',
             'listeners are not attached in checkpoint runs (they would be deep-copied into the bundle)',
-            'only the default object loader is exercised here (loader precedence: C19)'],
+            'object loaders: the default one, a custom one with names of its own, and the two alternating over the checkpoints of one run that '
+            'are all loaded through ONE load context naming no loader (loader precedence in general: C19)'],
         rule='every state entry (k-th ENTERED_STATE callback) and every quiescent/paused point of every program and sampled outline, x {copy, pickle, yaml}; '
              'at each point: bundle -> medium -> unbundle -> bundle again compared key by key, loaded process accessors (pid, state, raw/parsed inputs, '
              'outputs, ctx, status, paused, creation time, outcome) compared with the original and with the specification state after Restore',
